@@ -225,6 +225,9 @@ def _own_helpers(cls):
     def pol(callee, ev, path):
         if callee.key in own and callee.name != "__init__":
             return True
+        # small private module-level helpers next to the class (e.g. a late-import accessor)
+        if callee.owner is None and callee.parent is None and callee.module is cls.module and callee.name.startswith("_"):
+            return True
         return False
     return pol
 
